@@ -71,6 +71,12 @@ func (s *Server) Shutdown(ctx context.Context) error {
 
 func (s *Server) proxyRoute(c *gin.Context) {
 	s.proxy.ServeHTTP(c.Writer, c.Request)
+
+	// This is the 'no route' handler, so if the response status is 404 and
+	// nothing has been written, Gin overwrites the content type and adds its
+	// default 'not found' body. Therefore write the header now so an upstream
+	// 404 response without a body is passed on unmodified.
+	c.Writer.WriteHeaderNow()
 }
 
 func (s *Server) panicRoute(c *gin.Context, err any) {
